@@ -1,8 +1,12 @@
 """C11 Linear spectra match the Fourier integral and symmetry relations.
 
-E-grid: five complete products (molecule; aggregate; aggregate + static secular Redfield tensor;
-aggregate + time-dependent tensor; from_dynamics route) over (size, site-energy set, coupling
-pattern, dipole geometry, bath pattern, time-axis length and step).  Inside EVERY grid point the whole inner alphabets
+E-grid: eight complete products (molecule; aggregate; aggregate + static secular Redfield tensor;
+aggregate + time-dependent tensor; from_dynamics route; aggregate with a user-supplied
+CorrelationFunctionMatrix carrying site-off-diagonal (cross-correlation) entries; aggregate whose
+Hamiltonian carries a split-off remainder coupling; histories of the aggregate object) over (size,
+site-energy set, coupling pattern, dipole geometry, bath pattern, time-axis length and step
+[, correlation-matrix pattern][, cut-off mode x value][, operation sequence x calculator
+creation time]).  Inside EVERY grid point (history section excepted) the whole inner alphabets
 are applied (never sampled): all rotations of the tier's rotation set, all relabellings of the
 molecules, all dipole scale factors, the uncoupled partner system (integral clause) and an
 exception injected at every call position of `one_transition_spectrum` (purity under failure).
@@ -26,6 +30,28 @@ Clauses and oracles
             (raw and non-raw), second calculate returns the same spectrum; also after calculate
             raised (injected at every call of one_transition_spectrum; aggregate without
             environment, where calculate raises by itself)                          tol R 1e-10
+            [the after-raise part is disabled, see VERIF_C11_AFTER_RAISE below]
+            A Hamiltonian's remainder coupling JR and its flag belong to the Hamiltonian.
+
+Added dimensions
+  cf-matrix  the bath is a user-built CorrelationFunctionMatrix (set_egcf_mapping on the molecules,
+             set_egcf_matrix on the aggregate); patterns: explicit diagonal, one bath for all sites,
+             every pair of sites sharing a bath, weak cross-correlation of all pairs / of one pair.
+             Reference: C_alpha = sum_{k,l} c_k^2 c_l^2 C_kl over the FULL square, from the samples
+             of the functions handed in.
+  cutoff     modes remove / subtract (Hamiltonian.remove_cutoff_coupling / subtract_cutoff_coupling
+             on the system Hamiltonian) and effective-RF (tensor + effective Hamiltonian of
+             get_RelaxationTensor("combined_RedfieldFoerster", coupling_cutoff=c)); values below,
+             between and above the couplings.  The reference takes the one-exciton block of the
+             Hamiltonian the calculator is given (before the call).
+  history    ALL sequences up to the tier's depth over the operations D (Aggregate.diagonalize),
+             M (MockAbsSpectrumCalculator bootstrap+calculate), A (another AbsSpectrumCalculator
+             run), R (tensor + run with tensor) [, F (propagator + from_dynamics run)] applied to
+             the SAME aggregate object, calculator created before / after the history.  Checked:
+             purity of every spectrum-calculating step (snapshot just before its calculator is
+             made), then purity + Fourier clause of the final spectrum and its identity (class R)
+             with the spectrum of an identical, never touched aggregate.  (Mock line SHAPES have no
+             dipole correlation function and are not compared with anything.)
 """
 import itertools
 
@@ -385,6 +411,14 @@ def same_spectrum(ref, other, tol, factor=1.0):
 # ------------------------------------------------------------------------------------------
 # reference
 # ------------------------------------------------------------------------------------------
+def _one_exciton_block(hfull):
+    """One-exciton block of a full Hamiltonian matrix as TRANSITION energies: the energy of the
+    (decoupled) ground state hfull[0, 0] - the sum of the molecular ground-state energies - is
+    taken off the diagonal."""
+    h1 = numpy.array(hfull[1:, 1:], dtype=float)
+    return h1 - float(hfull[0, 0]) * numpy.eye(h1.shape[0])
+
+
 def reference_signal(b, hlib_before, rsite_before):
     """a(t) (rotating at wref) of the system described by the case, from the spec.
 
@@ -397,7 +431,7 @@ def reference_signal(b, hlib_before, rsite_before):
     if spec.get("cutoff"):
         # the Hamiltonian without the split-off couplings is what the user hands over (which
         # couplings Hamiltonian.remove/subtract_cutoff_coupling splits off is not C11's matter)
-        h1 = numpy.array(hlib_before[1:, 1:], dtype=float)
+        h1 = _one_exciton_block(hlib_before)
     elif spec["kind"] == "molecule" or not spec["dd"]:
         h1 = numpy.zeros((n, n))
         for i in range(n):
@@ -408,7 +442,7 @@ def reference_signal(b, hlib_before, rsite_before):
     else:
         # dipole-dipole couplings are computed by the library from positions and dipoles (C03's
         # matter); the reference takes the one-exciton block of the Hamiltonian as built
-        h1 = numpy.array(hlib_before[1:, 1:], dtype=float)
+        h1 = _one_exciton_block(hlib_before)
     wref = float(numpy.mean(numpy.diag(h1)))
     a, info = AR.dipole_correlation(b.ta.data, h1, spec["dip"], b.cfs, rsite=rsite_before,
                                     wref=wref, extra_rates=b.extra_rates,
@@ -498,6 +532,8 @@ def eval_case(case, tier=None):
     tier = tier or case.get("_tier", "quick")
     if case.get("route") == "dynamics":
         return eval_dynamics(case, tier)
+    if case.get("route") == "history":
+        return eval_history(case, tier)
     spec = spec_of(case)
     viol = {}
     dev = {}
@@ -846,6 +882,150 @@ def eval_dynamics(case, tier):
                      "case": case}}
 
 
+# ------------------------------------------------------------------------------------------
+# object histories: things done with the SAME aggregate object before the spectrum is calculated
+# ------------------------------------------------------------------------------------------
+HIST_OPS = {"D": "Aggregate.diagonalize()",
+            "M": "MockAbsSpectrumCalculator bootstrap + calculate",
+            "A": "another AbsSpectrumCalculator bootstrap + calculate",
+            "R": "get_RelaxationTensor(standard Redfield, secular) + calculate with that tensor",
+            "F": "get_ReducedDensityMatrixPropagator + calculate(from_dynamics=True)"}
+HIST_SPECTRUM_OPS = {"M": "mock", "A": "lineshape", "R": "tensor", "F": "dynamics"}
+HIST_ALPHABET = {"quick": "DMAR", "thorough": "DMARF"}
+HIST_DEPTH = {"quick": 2, "thorough": 3}
+
+
+def histories(tier):
+    """ALL operation sequences of length 1..depth over the tier's alphabet, shortest first."""
+    out = []
+    for ln in range(1, HIST_DEPTH[tier] + 1):
+        out += ["".join(p) for p in itertools.product(HIST_ALPHABET[tier], repeat=ln)]
+    return out
+
+
+def history_op(b, op, objs):
+    """Performs one operation on b.system.  For operations that calculate a spectrum returns
+    (objects to compare, snapshot taken just before the calculator is created, max of the spectrum);
+    otherwise None."""
+    qr = isolation.qr()
+    agg = b.system
+    try:
+        if op == "D":
+            agg.diagonalize()
+            return None
+        if op == "M":
+            from quantarhei.spectroscopy.mockabscalculator import MockAbsSpectrumCalculator
+            snap = snapshot(objs)
+            calc = MockAbsSpectrumCalculator(b.ta, system=agg)
+            calc.bootstrap(rwa=float(qr.convert(float(numpy.mean(b.spec["E"])), "1/cm", "int")),
+                           shape="Gaussian")
+            calc.set_width(float(qr.convert(80.0, "1/cm", "int")))
+            sp = calc.calculate(raw=True)
+            return objs, snap, float(numpy.max(sp.data))
+        if op == "A":
+            snap = snapshot(objs)
+            calc = qr.AbsSpectrumCalculator(b.ta, system=agg)
+            calc.bootstrap()
+            sp = calc.calculate(raw=True)
+            return objs, snap, float(numpy.max(sp.data))
+        if op == "R":
+            rr, ham = agg.get_RelaxationTensor(b.ta, relaxation_theory="standard_Redfield",
+                                               secular_relaxation=True)
+            isolation.reset_units()
+            o = dict(objs)
+            o["tensor"] = rr
+            if ham is not objs["hamiltonian"]:
+                o["effective-hamiltonian"] = ham
+            snap = snapshot(o)
+            calc = qr.AbsSpectrumCalculator(b.ta, system=agg, relaxation_tensor=rr,
+                                            effective_hamiltonian=ham)
+            calc.bootstrap()
+            sp = calc.calculate(raw=True)
+            return o, snap, float(numpy.max(sp.data))
+        if op == "F":
+            prop = agg.get_ReducedDensityMatrixPropagator(b.ta, relaxation_theory="stR",
+                                                          time_dependent=False)
+            isolation.reset_units()
+            snap = snapshot(objs)
+            calc = qr.AbsSpectrumCalculator(b.ta, system=agg)
+            calc.bootstrap(prop=prop)
+            sp = calc.calculate(raw=True, from_dynamics=True)
+            return objs, snap, float(numpy.max(sp.data))
+    finally:
+        isolation.reset_units()
+    raise ValueError(op)
+
+
+def eval_history(case, tier):
+    spec = spec_of(case)
+    hist = case["hist"]
+    viol, dev = {}, {}
+
+    def add(key, what, det=None):
+        if key not in viol:
+            viol[key] = (key, what, det)
+
+    def worst(name, x):
+        dev[name] = max(dev.get(name, 0.0), float(x))
+
+    qr = isolation.qr()
+    # the same system, freshly built and never touched: what the spectrum has to be
+    fresh = spectrum(build(spec), raw=True)
+    ncalc = 1
+    b = build(spec)
+    objs = observed_objects(b)
+    hlib = snapshot(objs)["hamiltonian"]
+    peaks = []
+    for pos, op in enumerate(hist):
+        r = history_op(b, op, objs)
+        ncalc += 1
+        if r is None:
+            continue
+        o, snap, pk = r
+        peaks.append(round(pk, 6))
+        bad, w = changed(o, snap)
+        worst("history-purity", w)
+        if bad:
+            add("purity/after-%s-spectrum/history/%s" % (HIST_SPECTRUM_OPS[op],
+                                                         "+".join(sorted(bad))),
+                "step %d of history %r (%s) changed %s of the system (max rel. change %.3g)"
+                % (pos + 1, hist, HIST_OPS[op], bad, w), {"changed": bad, "step": pos + 1})
+    if case["calc"] == "after":
+        # calculator created only now (the one of build() was bootstrapped before the history)
+        b.calc = qr.AbsSpectrumCalculator(b.ta, system=b.system)
+        b.calc.bootstrap()
+        isolation.reset_units()
+    snap = snapshot(objs)
+    base = spectrum(b, raw=True)
+    ncalc += 1
+    bad, w = changed(objs, snap)
+    worst("history-purity", w)
+    if bad:
+        add("purity/after-calculate/history/" + "+".join(sorted(bad)),
+            "calculate(raw=True) after history %r changed %s of the system (max rel. change "
+            "%.3g)" % (hist, bad, w), {"changed": bad})
+    fc = fourier_clause(b, base, hlib, None, "aggregate+history", add, worst)
+    if fc is None:
+        return {"nontrivial": False, "outcome": "bad-axis", "violations": list(viol.values()),
+                "n": ncalc - 1}
+    ok, rel = same_spectrum(fresh, base, TOL_R)
+    worst("history-vs-fresh-object", rel)
+    if not ok:
+        add("history/spectrum-differs-from-fresh-object",
+            "after history %r (%s) the spectrum of the aggregate differs by %.3g (relative) from "
+            "the spectrum of an identical, freshly built aggregate"
+            % (hist, "; ".join(HIST_OPS[o_] for o_ in hist), rel), {"hist": hist})
+    x, y = base
+    ipk = int(numpy.argmax(y))
+    coupled = spec["dd"] or any(v != 0.0 for r_ in spec["J"] for v in r_)
+    return {"nontrivial": bool(coupled and fc["resolved"] and spec["n"] > 1),
+            "outcome": ["history", hist, case["calc"], spec["n"], round(float(y[ipk]), 6), ipk,
+                        peaks, fc["fourier"]],
+            "violations": list(viol.values()), "n": ncalc - 1,
+            "info": {"dev": dev, "cint": None, "grp": None,
+                     "fourier": "history-" + fc["fourier"], "case": case}}
+
+
 def replay(case):
     if "min" in case and "max" in case:      # run-level artefact: two systems of one group
         ra, rb = eval_case(case["min"]), eval_case(case["max"])
@@ -929,6 +1109,48 @@ def sections(tier):
                         "tensor": [False], "td": [False] if quick else [False, True],
                         "axis": AXES_DYN[tier]})
     sec["dynamics"] = dyn
+    # ---- user-supplied CorrelationFunctionMatrix with site-off-diagonal (cross-correlation)
+    # entries: N x pattern x coupling x geometry x tensor x axis
+    cfmp = {2: ["diag", "all", "partial"],
+            3: ["pair02", "all", "partial", "pair01"] if quick else
+               ["diag", "all", "pair01", "pair02", "pair12", "partial", "partial01"]}
+    cfs_ = []
+    for n in (2, 3):
+        coup = ["chain60", "dd"] + ([] if quick else ["chain-120"]) + (["full"] if n == 3 else [])
+        cfs_ += product({"kind": ["aggregate"], "N": [n], "eset": esets, "coupling": coup,
+                         "geom": _geoms(n, "quick")[:2] if quick else _geoms(n, "quick"),
+                         "bath": ["same"], "cfm": cfmp[n], "tensor": [False, True],
+                         "axis": AXES_TENSOR[tier][:2]})
+    sec["aggregate+cf-matrix"] = cfs_
+    # ---- Hamiltonians carrying a split-off remainder coupling: N x mode x cut-off value x
+    # coupling x geometry x bath x axis.  Values (1/cm) lie below / between / above the couplings
+    # of the patterns (|J| = 35, 60, 120; dipole-dipole 10..440)
+    cuts = []
+    cutvals = [50.0, 100.0] if quick else [25.0, 50.0, 100.0, 200.0]
+    for n in (2, 3):
+        coup = ["chain60", "dd"] + ([] if quick else ["chain-120"]) + (["full"] if n == 3 else [])
+        for mode in ("remove", "subtract", "effective-RF"):
+            eff = mode == "effective-RF"
+            cuts += product({"kind": ["aggregate"], "N": [n], "eset": esets, "coupling": coup,
+                             "geom": _geoms(n, "quick")[:1] if quick else _geoms(n, "quick"),
+                             "bath": ["same", "sitewise"],
+                             "cutoff": [[mode, v] for v in cutvals],
+                             # (the time-dependent combined tensor cannot be constructed on
+                             # the pinned tree: TypeError inside get_RelaxationTensor)
+                             "tensor": [True] if eff else [False],
+                             "axis": AXES_TD[tier]})
+    sec["aggregate+cutoff"] = cuts
+    # ---- histories of the aggregate OBJECT before the spectrum: system x ALL operation
+    # sequences up to the depth x calculator created before/after the history
+    his = []
+    for n in (2, 3):
+        coup = ["chain60", "dd"] + (["full"] if n == 3 else [])
+        his += product({"route": ["history"], "kind": ["aggregate"], "N": [n], "eset": ["wide"],
+                        "coupling": coup, "geom": _geoms(n, "quick")[:1 if quick else 2],
+                        "bath": ["sitewise"] if quick else ["same", "sitewise"],
+                        "tensor": [False], "hist": histories(tier),
+                        "calc": ["before", "after"], "axis": AXES_TD[tier][:1]})
+    sec["history"] = his
     for lst in sec.values():
         for c in lst:
             c["Nt"], c["dt"] = int(c["axis"][0]), float(c["axis"][1])
@@ -946,12 +1168,17 @@ def cases(tier):
 
 def run(run):
     from mc.explore import rotate
-    run.rule = ("five complete products (molecule / aggregate / aggregate+static Redfield "
-                "tensor / aggregate+time-dependent tensor / from_dynamics route) of kind x N x "
-                "energy set x coupling pattern x dipole geometry x bath pattern x time axis; "
-                "inside each point ALL rotations of the tier, all relabellings, both scale "
-                "factors, the uncoupled partner and an injected exception at every call of "
-                "one_transition_spectrum; non-trivial = aggregate of >= 2 molecules with "
+    run.rule = ("eight complete products (molecule / aggregate / aggregate+static Redfield "
+                "tensor / aggregate+time-dependent tensor / from_dynamics route / aggregate with "
+                "user-supplied correlation-function matrix with cross-correlations / aggregate "
+                "whose Hamiltonian carries a split-off remainder coupling / histories of the "
+                "aggregate object) of kind x N x energy set x coupling pattern x dipole geometry "
+                "x bath pattern x time axis [x correlation-matrix pattern] [x cut-off mode x "
+                "value] [x ALL operation sequences up to the depth x calculator created "
+                "before/after]; inside each point (history section: purity of every step, "
+                "Fourier clause and identity with a fresh object only) ALL rotations of the "
+                "tier, all relabellings, both scale factors and the uncoupled partner; "
+                "non-trivial = aggregate of >= 2 molecules with "
                 "non-zero coupling and non-degenerate exciton levels")
     run.assumptions = [
         "reference: mc/refmodels/absorption_ref.py (direct O(Nt*Nw) Fourier sum at the returned "
@@ -971,8 +1198,22 @@ def run(run):
         "captured (harness wrapper around abscalculator._spect_from_dyn_single) and only the "
         "transform/axis bookkeeping, the symmetry relations and purity are checked; a(t) itself "
         "has no independent reference here",
-        "MockAbsSpectrumCalculator (phenomenological line shapes, no dipole correlation "
-        "function) is outside this driver",
+        "MockAbsSpectrumCalculator: its phenomenological line shapes (no dipole correlation "
+        "function) are not compared with anything; its bootstrap+calculate is a step of the "
+        "history section (purity of the step, effect on later spectra)",
+        "correlation-function matrix section: the reference sums the FULL square "
+        "sum_{k,l} c_k^2 c_l^2 C_kl(t) of the functions handed to set_correlation_function; "
+        "all patterns are symmetric (C_kl = C_lk) and fill the whole diagonal",
+        "cut-off section: the one-exciton block of the Hamiltonian the calculator works with "
+        "(system Hamiltonian after remove/subtract_cutoff_coupling, or the effective Hamiltonian "
+        "of the combined Redfield-Foerster theory) is taken as given; its remainder coupling JR "
+        "and flag are part of the Hamiltonian for the purity clause; the time-dependent combined "
+        "tensor is not in the grid because get_RelaxationTensor cannot construct it on the "
+        "pinned tree (TypeError in tdredfieldfoerster.py)",
+        "history section: purity of a spectrum-calculating step is measured from just before "
+        "its calculator object is created (Mock's bootstrap diagonalises the aggregate) to after "
+        "calculate(); get_RelaxationTensor / get_ReducedDensityMatrixPropagator themselves are "
+        "not spectrum calculations and lie outside the snapshot",
     ]
     run.bounds = {"N": [1, 2, 3], "time axes [Nt, dt/fs]": AXES[run.tier],
                   "time axes with static tensor": AXES_TENSOR[run.tier],
@@ -981,6 +1222,13 @@ def run(run):
                   "rotations in the dynamics section": len(rotations("quick")),
                   "scales": SCALES,
                   "relabellings": "all N!", "fault positions": "every call 1..N + no-environment",
+                  "correlation-matrix patterns": "N=2: diag, all, partial; N=3: + pairXY, "
+                                                 "partial01 (quick: 4 of them)",
+                  "cut-off": "modes remove/subtract/effective-RF x values (1/cm) "
+                             "[50,100] quick, [25,50,100,200] thorough",
+                  "history": {"alphabet": HIST_ALPHABET[run.tier], "depth": HIST_DEPTH[run.tier],
+                              "sequences": len(histories(run.tier)),
+                              "calculator": ["before", "after"]},
                   "tolerances": {"fourier": TOL_F, "rounding": TOL_R, "integral": TOL_I,
                                  "monomer-scaling": TOL_MONO_SCALE}}
     infos = []
